@@ -114,6 +114,7 @@ inductive Err where
   | nothingRead
   | invalid                   -- InvalidProtobufMessage
   | write                     -- Write(WriteZero)
+  | timeout                   -- TimeoutReached (blocking read)
 deriving Repr, DecidableEq, Inhabited
 
 structure Chan where
@@ -410,6 +411,67 @@ def run (decodes : Bytes → Bool) : Sys → List Op → Sys × List Out
   | s, op :: ops =>
     let (s1, o) := step decodes s op
     let (s2, os) := run decodes s1 ops
+    (s2, o :: os)
+
+/- ------------------------------------------------------ blocking mode -- -/
+
+/-- `read_message_blocking_timeout(Some(t))`: parse, else read what the kernel
+    has into the free tail and parse again; an empty queue is a timeout (or
+    `NoByteToRead` after a hang-up). No interest/readiness involved. -/
+def breadLoop (decodes : Bytes → Bool) (closed : Bool) :
+    Nat → Chan → Bytes → Chan × Bytes × Except Err Bytes
+  | 0, c, rq => (c, rq, .error .timeout)
+  | fuel + 1, c, rq =>
+    match c.tryRead decodes with
+    | (c1, .ok (some m)) => (c1.tryShrinkFront, rq, .ok m)
+    | (c1, .error e) => (c1, rq, .error e)
+    | (c1, .ok none) =>
+      if rq.isEmpty then (c1, rq, .error (if closed then .noByteToRead else .timeout))
+      else
+        let n := min c1.front.availSpace rq.length
+        if n = 0 then (c1, rq, .error .noByteToRead)
+        else breadLoop decodes closed fuel { c1 with front := c1.front.fill (rq.take n) } (rq.drop n)
+
+/-- the flush loop of `write_message_blocking`: any error of `sock.write`
+    (here: the schedule is exhausted, e.g. a send timeout) ends it with `Ok(())`,
+    leaving the remainder in the back buffer -/
+def bwriteLoop : List Nat → Chan → Bytes → Chan × Bytes
+  | sched, c, acc =>
+    if c.back.availData = 0 then (c, acc)
+    else
+      match sched with
+      | [] => (c, acc)
+      | k :: rest =>
+        if k = 0 then (c, acc)
+        else
+          let n := min k c.back.availData
+          bwriteLoop rest { c with back := c.back.consume n } (acc ++ c.back.data.take n)
+
+/-- ops of the extended system: the non-blocking ops plus the blocking calls -/
+inductive XOp where
+  | base (op : Op)
+  | bread                                   -- reader: `read_message_blocking_timeout(Some(t))`
+  | bwrite (payload : Bytes) (sched : List Nat)   -- writer: `write_message` in blocking mode
+deriving Repr, DecidableEq, Inhabited
+
+def xstep (decodes : Bytes → Bool) (s : Sys) : XOp → Sys × Out
+  | .base op => step decodes s op
+  | .bread =>
+    match breadLoop decodes s.closed (s.rq.length + 66) s.r s.rq with
+    | (r1, rq1, .ok m) => ({ s with r := r1, rq := rq1 }, .msg m)
+    | (r1, rq1, .error e) => ({ s with r := r1, rq := rq1 }, .err e)
+  | .bwrite p sched =>
+    match s.w.writeDelimited p with
+    | (w1, .error e) => ({ s with w := w1 }, .err e)
+    | (w1, .ok ()) =>
+      let (w2, acc) := bwriteLoop sched w1 []
+      ({ s with w := w2, wire := s.wire ++ acc }, .unit)
+
+def xrun (decodes : Bytes → Bool) : Sys → List XOp → Sys × List Out
+  | s, [] => (s, [])
+  | s, op :: ops =>
+    let (s1, o) := xstep decodes s op
+    let (s2, os) := xrun decodes s1 ops
     (s2, o :: os)
 
 /- ------------------------------------------------- worker-side spec -- -/
